@@ -18,7 +18,7 @@ PROPS = {
         level_note="trusted: the reference shape decider (harness/ref/shape.go) and the schema printer; depth<=5, width<=5; `1.0`-style numerals against integer examples are not judged",
         rule=("schemas: abstract models of the rule-free fragment (objects/arrays/5 scalar kinds, depth<=4 quick / 5 thorough, optional / nullable / type any, "
               "keys incl. empty, escaped and non-ASCII) printed one node per line; documents: instance-then-mutate (0-3 of: flip kind, int<->float, inject null, "
-              "drop/add/duplicate/reorder key, truncate/extend array, swap items), random JSON, the example itself; both option settings. "
+              "drop/add/duplicate/reorder key, truncate/extend array, swap items), random JSON, the example itself, the instance without each single key of its objects; every document again on a schema object that has validated all documents of the case; both option settings. "
               "non-trivial = document root has the example's kind and (accepted with depth>=2, or rejected by a difference at depth>=1); "
               "distinct by hash(schema text, document text, option)"),
         assumptions=["reference shape decider is right", "schema printer emits what the model says (cross-checked by C16)"],
@@ -82,7 +82,7 @@ PROPS["C19"] = dict(
                 "concurrent plans under -race. Exhaustive for the bounded vocabulary, sampled beyond."),
     level_note="trusted: the 60-line reference model (omap.Model); the race detector for the concurrency clause (explores only schedules that happen)",
     rule=("histories: every sequence of 1..4/6 ops from {Set(3 keys x 2 values), Update x3, Delete x3, Filter x2 predicates, Map x2 functions (one failing)}; after each prefix: Len, Has/Get/GetValue for "
-          "all keys and an absent key, Each/EachSafe traces, Each early stop, Find x2, MarshalJSON, and the callback call-log of Filter/Map/Update; random sequences <=200 ops over 8 keys; "
+          "all keys and an absent key, Each/EachSafe traces, Each early stop, Find x2, MarshalJSON (every returned slice is kept and re-compared after later steps), and the callback call-log of Filter/Map/Update; random sequences <=200 ops over 8 keys; "
           "concurrent: 2-8 goroutines x <=30 ops under -race. non-trivial = contains a Delete of an absent key, a Filter rejecting a non-last entry, or a Set after a Delete of the same key "
           "(classified for all sequences of length<=4 and every 16th longer one); distinct by (map type, sequence)"),
     assumptions=["reference model is right", "callbacks never re-enter the map (the API holds its lock during callbacks)"],
@@ -104,7 +104,7 @@ PROPS["C10"] = dict(
                 "LengthOfFractionalPart are compared directly. Exhaustive for the bounded alphabet, sampled beyond."),
     level_note="trusted: ref.ParseDecimal + math/big; `1.0`-style numerals against integer examples and integer-vs-float equality in enum/const are not judged (statement unclear)",
     rule=("pairs (rule parameter M without exponent, document numeral N): all numerals <=3/4 chars x all, all <=5/7 chars x 25 pivots x {min,max,exclusiveMinimum,exclusiveMaximum,enum,const}, integer "
-          "example, precision 1-3; random: mantissa <=60 digits, |exp|<=400, N derived from M by exponent shift / zero padding / e0 / sign of zero / last-digit neighbour / sign flip. "
+          "example, additionalProperties: integer, precision 1-3; random: mantissa <=60 digits, |exp|<=400, N derived from M by exponent shift / zero padding / e0 / sign of zero / last-digit neighbour / sign flip / fresh digits of the same integer length; parameters at word-size and power-of-ten boundaries. "
           "non-trivial = M and N spelled differently and equal or within 1 of each other (or sign-mirrored); for integer/precision: N has a point or exponent; distinct by (rule, M, N)"),
     assumptions=["reference decimal parser is right (it is checked against the RFC grammar recogniser on every token)"],
     jobs=[
@@ -136,7 +136,7 @@ PROPS["C03"] = dict(
                 "allOf is the transitive merge of property requirements, additionalProperties decides unnamed keys and a key shortcut admits the keys its string type accepts. Graphs that Check rejects "
                 "are discarded and counted. Sampled."),
     level_note="trusted: harness/ref/compose.go + scalar.go; keys matching two shortcuts, rule-less key types, float kind with integer value under additionalProperties and `array`/`object` kind names in or-lists are not judged",
-    rule=("graphs: 1-6 user types (scalar types with ranges/lengths/regex/mixed enums; objects with literal keys, allOf chains, additionalProperties in every mode, one key-shortcut entry, optional self-recursion; arrays), "
+    rule=("graphs: 1-6 user types (scalar types with ranges/lengths/regex/mixed enums; objects with literal keys, allOf chains, additionalProperties in every mode, one key-shortcut entry, optional self-recursion; arrays; union types (a reference or list, possibly nullable), literal roots with an or rule, alias key types; array-heavy graphs with item-count rules), "
           "value positions @T, @A|@B[|@C], {type: \"@T\"}, {or: [type names, kind names, inline rule sets]}, nullable/optional; root under both key-optionality settings; documents: instances drawn per alternative "
           "+ 0-2 structural mutations, and random JSON. non-trivial = the reference evaluation passed through a position with >=2 alternatives, an allOf-inherited key, an additionalProperties decision, "
           "a key-shortcut match or a type-rule reference; distinct by (spec, document)"),
@@ -178,8 +178,8 @@ PROPS["C09"] = dict(
                 "UsedUserTypes must equal the names in the root text, graphs whose every type is inhabited must be accepted, graphs whose root is uninhabited must be rejected with a recursion error, and on "
                 "accepted graphs Check/Validate/Example must return. Sampled."),
     level_note="trusted: harness/ref/inhabit.go; graphs whose only uninhabited types sit behind optional/array edges are not judged; self-reference through a {type: \"@T\"} rule is not generated",
-    rule=("graphs: 2-6 named types (object or scalar leaf) with 1-3 properties each; reference forms: required / optional property, @A|@B[|@C], array item, nested object, {type: \"@leaf\"}, allOf parent, "
-          "additionalProperties type, key shortcut; ~17% of graphs reference an undefined name; roots: single reference, alternative list, object of references; both key-optionality settings. "
+    rule=("graphs: 2-6 named types (object, scalar leaf, or pure reference / alternative list that may name itself) with 1-3 properties each (optional true / false written out); reference forms: required / optional property, @A|@B[|@C], array item, nested object, {type: \"@leaf\"}, allOf parent (on a type root or on an object below it), "
+          "additionalProperties type, key shortcut (string type or an alias of it, also one listing itself); ~17% of graphs reference an undefined name; roots: single reference, alternative list, object of references; both key-optionality settings. "
           "non-trivial = judged and (the graph has a reference cycle or a missing name) and >=2 types; distinct by the printed spec"),
     assumptions=["a wall-clock budget of 20 s per call is only used to turn a hang into a recorded case; hitting it is reported with the case (never seen on the pinned tree)"],
     jobs=[job("graphs", "^TestTypeGraphs$", (4, 16), (6000, 25000), (900, 3000))],
@@ -228,8 +228,8 @@ PROPS["C18"] = dict(
                 "source-order listing with kinds and attached comments, and validation equivalence with the inline list on a probe batch; generated RE2 patterns are checked for Pattern/Len/Example and "
                 "equivalence of the added regex type with an inline {regex} rule on matches and single-edit mutants. Sampled."),
     level_note="trusted: Go regexp as RE2 reference (same engine as the library: the point is plumbing - delimiters, quoting, search vs full match); numerically equal numbers in different spellings inside one enum list are not generated",
-    rule=("enum lists of 0-8 items from an 18-item pool incl. pairs differing only in kind, strings containing // , ] and quotes; non-trivial = >=2 kinds or a comment; regex patterns from the printable-ASCII grammar with "
-          "escaped slashes/backslashes, anchors, tails after the closing slash; non-trivial = has a metacharacter; distinct by text"),
+    rule=("enum lists of 0-8 items from an 18-item pool incl. pairs differing only in kind, strings containing // , ] and quotes; after the closing bracket nothing / blanks / line break / a comment with or without a line break; Len before Check on a third of the rules; non-trivial = >=2 kinds or a comment; regex patterns from the printable-ASCII grammar with "
+          "escaped slashes/backslashes, blanks (space, \\s, [ ]), anchors, tails after the closing slash; non-trivial = has a metacharacter; distinct by text"),
     assumptions=["duplicates are judged on (kind, decoded text)"],
     jobs=[job("enum", "^TestNamedEnum$", (4, 16), (4000, 30000), (600, 3000)),
           job("regex", "^TestRegexType$", (4, 16), (3000, 20000), (600, 3000))],
@@ -253,7 +253,7 @@ PROPS["C17"] = dict(
                 "cannot continue the text (last byte at premature end), validation errors of documents with one planted violation (wrong kind, unknown key, missing required key, item under an empty example array) "
                 "must sit on the offending value / key / enclosing object."),
     level_note="trusted: harness/ref/render.go, the reference JSON parser's error offset, the document printer's spans; files mixing newline conventions, all-blank lines and positions on line breaks / inside trimmed blanks have no defined text/caret (only line number and no-panic are asserted)",
-    rule=("render: (content, position) pairs, non-trivial = the file has >=2 lines or leading blanks; parse: one-byte edits/truncations of generated JSON, non-trivial = depth>=1; "
+    rule=("render: (content, position) pairs incl. raw line lengths 197-204 and error values rendered elsewhere first and then re-pointed, non-trivial = the file has >=2 lines or leading blanks; parse: one-byte edits/truncations of generated JSON, non-trivial = depth>=1; "
           "validation: rule-free schemas x instances x one planted violation, non-trivial = planted at depth>=1; distinct by the inputs"),
     assumptions=["the planted violation is the only deviation (re-checked with the reference shape decider; documents with duplicate keys are skipped)"],
     jobs=[job("render-exhaustive", "^TestRenderExhaustive$", (1, 1), (1, 1), (900, 3000)),
@@ -268,10 +268,11 @@ PROPS["C07"] = dict(
                 "listed rather than generated - see DESIGN section 5 C07)."),
     level_note="trusted: the harness's recover wrappers; a 60 s per-session watchdog only turns a hang into a recorded case; bare codes are judged at panic/return/New*Error sites only (others are not classified)",
     rule=("sessions: a generated valid case (type graphs, ruled trees, reference graphs, repository testdata schemas; optional enum rule and regex type) with one role mutated (grammar-aware token edit or 1-3 byte edits "
-          "from a hostile set) or truncated at every offset; non-trivial = the schema text has more than one token or an error object was rendered; distinct by the role tuple"),
+          "from a hostile set) or truncated at every offset; legal inputs extreme in one dimension (nesting depth <=150, <=300 properties, <=120 alternatives/enum items, one token <=3.5 KB, reference chains <=80, full trees); non-trivial = the schema text has more than one token or an error object was rendered; distinct by the role tuple"),
     assumptions=["API-legal call order (rules before load, types before compile)"],
     jobs=[job("mutations", "^TestMutatedInputs$", (4, 16), (4000, 20000), (900, 3000)),
           job("truncations", "^TestTruncations$", (4, 16), (120, 1500), (900, 3000)),
+          job("extremes", "^TestLegalExtremes$", (2, 8), (150, 1500), (900, 3000)),
           job("table", "^TestErrorTable$", (1, 1), (1, 1), (300, 600)),
           job("fuzz", "", (0, 0), (0, 0), (0, 0), fuzz="FuzzSchemaAPI", fuzztime=120, tiers=("thorough",))],
 )
@@ -284,8 +285,8 @@ PROPS["C11"] = dict(
                 "returned slice / AST must stay unchanged afterwards. Map orders: the current tree is rewritten so that each of its range-over-map sites iterates in a forced order (ascending, descending, "
                 "rotate 1, rotate 2); all results of a case must be equal across the four orders."),
     level_note="trusted: the rewriter is semantics-preserving for a legal order (it re-checks key presence per iteration); forced orders are a strict subset of all permutations for maps with >3 entries; regex Example() is pseudo-random by design and only compared for success",
-    rule=("histories: actions create / op / touch-other; non-trivial = some (spec, op) repeated and ops on different specs interleaved; map orders: generated specs plus a family biased to the range sites "
-          "(several types, or alternatives, missing required keys, overlapping key shortcuts, allOf from two parents); non-trivial = a rewritten site iterated a map with >=2 entries (counted by the hook); "
+    rule=("histories: actions create / create-sharing (a new root given the type objects of an existing one) / op / touch-other; specs incl. roots inheriting (allOf) from types that refer to further types; non-trivial = some (spec, op) repeated and ops on different specs interleaved; map orders: generated specs plus a family biased to the range sites "
+          "(several types, or alternatives, missing required keys, overlapping key shortcuts, allOf from two parents) and a literal-kind family (additionalProperties of each kind x literals in every spelling); non-trivial = a rewritten site iterated a map with >=2 entries (counted by the hook); "
           "distinct by the step list / spec"),
     assumptions=["error messages are not compared (required-key messages list keys in map order by design), only verdict, code, position and file"],
     jobs=[job("histories", "^TestHistories$", (4, 16), (2000, 6000), (900, 3000)),
